@@ -335,6 +335,38 @@ example : (warn (⟨[], .default, [], [], 0⟩ : World Nat) 5).2.shown = [5] ∧
 example : obsoleteKeys [(7, some 8), (9, none)] [(7, "a"), (3, "b"), (9, "c")] = [7, 9] := by decide
 example : foundInMro H₃ 2 1 10 = true := by decide
 
+/-! ### the argument dimension -/
+
+/-- **The old name accepts exactly the calls the replacement RESOLVED ON THE RECEIVER accepts**
+(same positional count, same keyword names - whatever the signatures of the function objects,
+including overrides that widen, narrow or reorder the signature of the base replacement). -/
+theorem alias_accepts_iff_resolved_accepts (sigOf : ImplId → Sig) (H : Hier) (c : ClassId)
+    (newName : NameId) (captured : ImplId) (npos : Nat) (kws : List NameId)
+    (h : foundInMro H c newName captured = true) :
+    aliasAccepts sigOf H c newName captured npos kws = newAccepts sigOf H c newName npos kws := by
+  unfold aliasAccepts newAccepts
+  rw [(dynamic_sound H c newName captured h).1]
+
+/-- signatures for `H₃`: Base.get_value(self, m) - Mid.get_value(self, m=None) widens it -/
+def sig₃ : ImplId → Sig
+  | 11 => ⟨[(7, true)], false, false⟩
+  | 13 => ⟨[(8, true), (7, true)], false, false⟩
+  | _ => ⟨[(7, false)], false, false⟩
+
+/-- **A wrapper that binds the arguments to the CAPTURED signature first is wrong**: on the leaf
+of `H₃` the call without argument is accepted by the new name (Mid's wider signature) and by the
+code's wrapper, refused by the pre-check; and a narrower call is refused identically. -/
+theorem precheck_on_captured_signature_is_wrong :
+    newAccepts sig₃ H₃ 2 1 0 [] = true ∧ aliasAccepts sig₃ H₃ 2 1 10 0 [] = true ∧
+    precheckAccepts sig₃ H₃ 2 1 10 0 [] = false ∧
+    newAccepts sig₃ H₃ 0 1 0 [] = false ∧ aliasAccepts sig₃ H₃ 0 1 10 0 [] = false := by decide
+
+example : sigAccepts ⟨[(1, false), (2, true)], false, false⟩ 1 [2] = true ∧
+    sigAccepts ⟨[(1, false), (2, true)], false, false⟩ 0 [2] = false ∧
+    sigAccepts ⟨[(1, false), (2, true)], false, false⟩ 2 [2] = false ∧
+    sigAccepts ⟨[(1, false), (2, true)], false, true⟩ 1 [9] = true ∧
+    sigAccepts ⟨[(1, false)], true, false⟩ 3 [] = true := by decide
+
 /-! ### non-vacuity: a base class with the alias, a subclass overriding the replacement, a
 sibling that does not, and a class where the replacement was rebound after the capture -/
 
